@@ -371,7 +371,7 @@ def worker(job):
         s = scenarios.S(rec, rnd)
         if kind_ == 'family':
             build_family_state(s, seed)
-            fam = family_queries()
+            fam = family_queries() if seed < 36 else nested_family_queries()
         else:
             build_state(s, rnd)
             fam = None
@@ -470,10 +470,70 @@ def worker(job):
 # exercises member_of / in_tree / group order on both kinds of groups
 
 def family_size():
-    return 4 * 3 * 3
+    return 4 * 3 * 3 + 2 * 3 * 2 * 2
+
+
+def build_nested_family_state(s, idx):
+    """Nested providers and no sharing provider anywhere: aggregates and
+    traits on the root versus on the child."""
+    a_root = [[], ['agg1']][idx % 2]
+    a_child = [[], ['agg1'], ['agg2']][(idx // 2) % 3]
+    a_flat = [[], ['agg1']][(idx // 6) % 2]
+    t_child = [[], ['HW_CPU_X86_AVX']][(idx // 12) % 2]
+    s.do(op='rc_post', v=39, name='CUSTOM_RC1')
+    s.do(op='trait_put', v=39, name='CUSTOM_T1')
+    s.mk('p1')
+    s.mk('p2', 'p1')
+    s.mk('p3')
+    s.mk('p4')
+    s.invs('p1', MEMORY_MB=16)
+    s.invs('p2', VCPU=4, CUSTOM_RC1=2)
+    s.invs('p3', VCPU=8, MEMORY_MB=16)
+    s.invs('p4', VCPU=8)
+    s.do(op='rp_traits_put', v=39, u='p1', gen=s.gen('p1'), traits=['CUSTOM_T1'])
+    if t_child:
+        s.do(op='rp_traits_put', v=39, u='p2', gen=s.gen('p2'), traits=t_child)
+    for u, ags in (('p1', a_root), ('p2', a_child), ('p3', a_flat)):
+        if ags:
+            s.do(op='agg_put', v=39, u=u, gen=s.gen(u), aggs=ags)
+
+
+def nested_family_queries():
+    def g(sfx, res, member_of=None, forbidden_aggs=None, in_tree='', required=None, forbidden=None):
+        return {'suffix': sfx, 'res': res, 'required': [_setrec(r) for r in (required or [])],
+                'forbidden': _setrec(forbidden or []), 'member_of': [_setrec(m) for m in (member_of or [])],
+                'forbidden_aggs': _setrec(forbidden_aggs or []), 'in_tree': in_tree}
+
+    def q(groups, v, policy='', **kw):
+        d = {'op': 'ac_list', 'v': v, 'groups': groups, 'policy': policy, 'root_required': {},
+             'root_forbidden': {}, 'same_subtree': [], 'limit': -1}
+        d.update(kw)
+        return d
+    out = []
+    for v in (17, 21, 24, 28, 29, 39):
+        out.append(q([g('', {'VCPU': 1})], v))
+        out.append(q([g('', {'VCPU': 1, 'MEMORY_MB': 1})], v))
+        out.append(q([g('', {'VCPU': 1}, required=[['CUSTOM_T1']])], v))
+        out.append(q([g('', {'VCPU': 1, 'MEMORY_MB': 1}, required=[['CUSTOM_T1'], ['HW_CPU_X86_AVX']])], v))
+        if v >= 21:
+            out.append(q([g('', {'VCPU': 1}, member_of=[['agg1']])], v))
+            out.append(q([g('', {'VCPU': 1, 'MEMORY_MB': 1}, member_of=[['agg1']])], v))
+            out.append(q([g('', {'CUSTOM_RC1': 1}, member_of=[['agg1', 'agg2']])], v))
+        if v >= 22:
+            out.append(q([g('', {'VCPU': 1}, forbidden=['HW_CPU_X86_AVX'])], v))
+            out.append(q([g('', {'VCPU': 1, 'MEMORY_MB': 1}, forbidden=['CUSTOM_T1'])], v))
+        if v >= 25:
+            out.append(q([g('1', {'VCPU': 1}, member_of=[['agg1']])], v))
+            out.append(q([g('', {'MEMORY_MB': 1}), g('1', {'VCPU': 1}, member_of=[['agg1']])], v))
+        if v >= 32:
+            out.append(q([g('', {'VCPU': 1}, forbidden_aggs=['agg1'])], v))
+            out.append(q([g('', {'VCPU': 1, 'MEMORY_MB': 1}, forbidden_aggs=['agg2'])], v))
+    return out
 
 
 def build_family_state(s, idx):
+    if idx >= 36:
+        return build_nested_family_state(s, idx - 36)
     subsets = [[], ['agg1'], ['agg2'], ['agg1', 'agg2']]
     a_cn1 = subsets[idx % 4]
     a_cn2 = [[], ['agg1'], ['agg2']][(idx // 4) % 3]
